@@ -73,6 +73,29 @@ def record_index(cfgd, feats, queries, id0, with_reg=True):
             e["raised"] = True
             e["exc"] = repr(ex)[:120]
         ev.append(e)
+    # history: on a second, identical index object a nearest-candidates search (unit = -1; not judged - the property does
+    # not constrain it) is made from every query point FIRST; the fixed-radius neighbourhoods that follow must be the same
+    nbrs = [q for q in queries if q[0] == "nbr"]
+    if nbrs:
+        with core.quiet():
+            idx2 = make_index(feats, ox, oy, cfgd["res"], cfgd["margin"])
+            for q in nbrs[::2]:
+                try:
+                    idx2.neighborhood(ENUCoords(float(ox + q[1][0]), float(oy + q[1][1]), 0.0), unit=-1)
+                except (Exception, SystemExit):
+                    pass
+        for q in nbrs:
+            e = dict(base, id=id0 + len(ev), feats=feats, raised=False, res=[], ev="nbr", q=list(q[1]), d=q[2], hist="after unit=-1 searches")
+            try:
+                with core.quiet():
+                    u = idx2.groundDistanceToUnits(q[2])
+                    e["u"] = int(u)
+                    r = idx2.neighborhood(ENUCoords(float(ox + q[1][0]), float(oy + q[1][1]), 0.0), unit=u)
+                e["res"] = sorted(set(int(x) for x in r))
+            except (Exception, SystemExit) as ex:
+                e["raised"] = True
+                e["exc"] = repr(ex)[:120]
+            ev.append(e)
     return ev
 
 
@@ -130,6 +153,8 @@ def job_random(args):
         qs = [("point", rnd.choice(pts)) for _ in range(12)]
         qs += [("point", p) for p in [(0, 0), (W, H), (W, 0), (0, H)]]
         qs += [("nbr", rnd.choice(pts), rnd.randrange(0, max(W, H) + 1)) for _ in range(10)]
+        # small radii around the features' own vertices: what must be found sits in the query point's own cell
+        qs += [("nbr", tuple(v), d) for f in feats[2:] for v in f for d in (0, 1)]
         qs += [("seg", rnd.choice(pts), rnd.choice(pts)) for _ in range(6)]
         qs += [("track", [rnd.choice(pts) for _ in range(rnd.randrange(2, 5))]) for _ in range(3)]
         big = cfgd["cs"] * cfgd["ls"] > 400
